@@ -67,6 +67,7 @@ pub fn byte_subs(prop: &str) -> Vec<Sub> {
 /// stack depth and un-inlined code paths matter)
 pub fn deep_subs(prop: &str) -> Option<Vec<&'static str>> {
     match prop {
+        "C01" => Some(vec!["c01.typed.v3", "c01.typed.v5"]),
         "C03" => Some(vec!["c03.declared-lengths", "c03.state-observation", "c03.header-body"]),
         "C16" => Some(vec!["c16.single"]),
         "C17" => Some(vec!["c17.single", "c17.population"]),
